@@ -207,6 +207,7 @@ func (s *scen) Apply(op int) bfs.Step {
 			if !res.OK() {
 				return bfs.Step{Accepted: false, Obs: "param-change-rejected"}
 			}
+			s.credited["#param-change-height"] = uint64(w.Ctx.BlockHeight())
 			return bfs.Step{Accepted: true, Obs: "param-change"}
 		case 3:
 			if uint64(w.Ctx.BlockHeight()) >= s.e0+s.save {
@@ -279,9 +280,17 @@ func (s *scen) Apply(op int) bfs.Step {
 		vs = append(vs, viol("allocation-exceeded", fmt.Sprintf("badge B%d (allocation %d, epoch %d): provider p%d was credited %d CU through it in total (last tx %s at height %d)",
 			o.through, b.CuAllocation, b.Epoch, o.provider, s.credited[key], o.name, height))...)
 	}
-	if through > 0 && height >= b.Epoch+s.save {
+	// blocks-to-save in force at the badge's epoch: a governance change is fixated at the first epoch start after it
+	save := s.save
+	if hc := s.credited["#param-change-height"]; hc != 0 {
+		fix := s.e0 + ((hc-s.e0)/s.eb+1)*s.eb
+		if b.Epoch >= fix {
+			save += 2 * s.eb
+		}
+	}
+	if through > 0 && height >= b.Epoch+save {
 		vs = append(vs, viol("credited-after-record-expiry", fmt.Sprintf("badge B%d (epoch %d): %d CU credited through it at height %d, its usage record expired at block %d (%s)",
-			o.through, b.Epoch, through, height, b.Epoch+s.save, o.name))...)
+			o.through, b.Epoch, through, height, b.Epoch+save, o.name))...)
 	}
 	if len(vs) > 0 {
 		return bfs.Step{Accepted: true, Obs: "violation", Viol: vs}
@@ -324,7 +333,7 @@ func firstLine(s string) string {
 func init() {
 	bfs.Register("c18", func() bfs.Scenario { return build() })
 	reg.Register(reg.Check{Property: "C18", Level: "model_checking", Run: func(run *ev.Run) {
-		depth, deadline := 12, 50*time.Second // normally reaches the fixpoint (depth 10) in ~25 s
+		depth, deadline := 12, 110*time.Second // the fixpoint is beyond this budget since the parameter-change op was added; depth 6-7 completes
 		if ev.Tier() == "thorough" {
 			depth, deadline = 16, 14*time.Minute // the state space is finite (sessions, horizon): the frontier empties around depth 12
 		}
